@@ -77,6 +77,35 @@ def strategy(tier):
     return network(tier)
 
 
+def enumerated(tier, seed):
+    """fixed, well-connected networks run on every invocation (the generated ones vary with the seed, and small sparse
+    networks converge too slowly for the fixed-point comparison): triangles of the Fano plane with a pendant chain, and
+    lines of the affine plane AG(2,3) with a 4-cycle -- every vertex lies in several motifs, motifs share at most one
+    vertex; all edge insertion orders x motif-id schemes x vertex-label schemes"""
+    fano = [[0, 1, 2], [0, 3, 4], [0, 5, 6], [1, 3, 5], [1, 4, 6], [2, 3, 6], [2, 4, 5]]
+    ag = [[0, 1, 2], [3, 4, 5], [6, 7, 8], [0, 3, 6], [1, 4, 7], [2, 5, 8], [0, 4, 8], [1, 5, 6]]
+    nets = [
+        (11, [["clique3", t] for t in fano] + [["clique2", [0, 7]], ["clique2", [7, 8]], ["clique2", [8, 9]]]),
+        (9, [["clique3", t] for t in ag] + [["cycle4", [2, 5, 8, 3]]]),
+    ]
+    out = []
+    for n, motifs in nets:
+        for order in ("round_robin", "reversed", "by_motif"):
+            for base, step in ((0, 1), (1000, 7), (250, 1)):
+                for rel in (False, "big"):
+                    out.append({"n": n, "motifs": motifs, "relabel": rel, "phis": [0.9, 1.0] if tier == "quick" else [0.9, 0.7, 1.0, 0.0],
+                                "iterations": 32 if tier == "quick" else 48,
+                                "edge_order": order, "id_base": base, "id_step": step})
+    if tier == "thorough":
+        return out
+    # quick: both networks x {round_robin, reversed} x two id schemes, alternating label schemes
+    keep = [c for c in out if c["edge_order"] != "by_motif" and c["id_base"] in (0, 1000)]
+    return [c for i, c in enumerate(keep) if (i % 2 == 0) == (c["relabel"] is False)]
+
+
+ENUM_CHUNK = 1
+
+
 def build(case):
     import networkx as nx
     lab = {True: (lambda v: 3 * v + 2), False: (lambda v: v), "big": (lambda v: 5000 - 7 * v)}[case["relabel"]]
